@@ -63,7 +63,7 @@ TEMPLATES = [
  'lbl:', 'lbl: PRINT 1', '10 PRINT 1\n10 PRINT 2', 'nodata: PRINT 1', '5 5 PRINT', 'END', 'STOP', 'SYSTEM', 'END {e}', 'DEFINT {e}', 'DEFINT A', 'DEFINT A-', 'DEFINT Z-A', 'DEFSTR A-Z\nx = 1', 'DEFINT A-Z\nx = "s"', 'OPTION BASE 1', 'DECLARE SUB p0 ()', 'DECLARE FUNCTION f1% (a%)', 'DECLARE SUB nosuch2 ()',
  'TYPE t2\nEND TYPE', 'TYPE t3\n x AS INTEGER\n x AS LONG\nEND TYPE', 'TYPE t4\n x AS nosuch\nEND TYPE', 'TYPE t5\n x AS t5\nEND TYPE', 'TYPE rt\n a AS INTEGER\nEND TYPE', 'TYPE t6\n PRINT 1\nEND TYPE', 'TYPE t7\n x(3) AS INTEGER\nEND TYPE', 'TYPE t8\n x AS STRING * 5\nEND TYPE', 'TYPE\nEND TYPE',
  'SUB p0\nEND SUB', 'SUB q1\nSUB q2\nEND SUB\nEND SUB', 'SUB q3 (a%, a%)\nEND SUB', 'SUB q4 (a AS nosuch)\nEND SUB', 'SUB q5\nlbl: PRINT 1\nEND SUB', 'SUB q6 STATIC\nx = 1\nEND SUB', 'SUB q7\nSHARED i%\nEND SUB', 'SUB q8\nSTATIC\nEND SUB', 'SUB q9\nDIM SHARED z\nEND SUB',
- 'FUNCTION q10\nq10 = "s"\nEND FUNCTION', 'FUNCTION q11$\nq11$ = 1\nEND FUNCTION', 'FUNCTION q12% (a%)\nEND FUNCTION\nPRINT q12%', 'FUNCTION q13\nEXIT SUB\nEND FUNCTION', 'FUNCTION q14\nq14 = q14(1)\nEND FUNCTION', 'FUNCTION i%\nEND FUNCTION', 'SUB f1%\nEND SUB',
+ 'FUNCTION q10\nq10 = "s"\nEND FUNCTION', 'FUNCTION q11$\nq11$ = 1\nEND FUNCTION', 'FUNCTION q12% (a%)\nEND FUNCTION\nPRINT q12%', 'FUNCTION q13\nEXIT SUB\nEND FUNCTION', 'FUNCTION q14\nq14 = q14(1)\nEND FUNCTION', 'FUNCTION i%\nEND FUNCTION', 'FUNCTION q15%\nFOR q15% = 1 TO 2\nNEXT\nEND FUNCTION', 'FUNCTION q16%\nINPUT q16%\nEND FUNCTION', 'FUNCTION q17%\nREAD q17%\nEND FUNCTION', 'FOR f1% = 1 TO 2\nNEXT', 'FOR p0 = 1 TO 2\nNEXT', 'SUB f1%\nEND SUB',
  "REM {e}", "' {e}", 'PRINT 1 \' c', 'PRINT 1: : PRINT 2', ':', ': :', '::PRINT 1', 'PRINT 1 :', 'LET', 'LET = 1', '= 1', '1 = 1', '{e}', '{e} {e}', '{lv}', '{lv}({e}) = {e}', '{lv}.a = {e}', '{lv}.a.b = {e}',
 ]
 # whole programs whose shape no template placement produces (use before definition, definitions after procedures, limits)
